@@ -28,23 +28,35 @@ class Evaluator:
         self._stack = _stack
 
     def _ev_helper(self, n, state, depth):
-        """value of a call to a small bool-returning function defined in the analysed sources, or None"""
+        """value of a call to a small bool-returning function (or local lambda) defined in the analysed sources, or None"""
         fn = self.fn
         if self.prog is None or len(self._stack) >= 3:
             return None
         if (n.get('t') or '') != 'bool':
             return None
-        callees = self.prog.callee_fns(fn, n)
+        args = list(n.get('args', []))
+        if n.get('op') == '()' and n.get('opargs'):
+            # invocation of a lambda held in a local variable
+            target = fn.nodes[fn.resolve(n['opargs'][0])]
+            if target['k'] != 'lambda':
+                return None
+            callees = self.prog.lambda_fns(fn, target)
+            args = list(n['opargs'][1:])
+        elif n.get('op'):
+            return None
+        else:
+            callees = self.prog.callee_fns(fn, n)
         if len(callees) != 1:
             return None
         g = callees[0]
         if g.entry is None or g.id == fn.id or g.id in self._stack or len(g.nodes) > 400 or g.raw.get('dependent'):
             return None
-        args = list(n.get('args', []))
         argvals = {}
+        alias = {}
         for k, a in enumerate(args):
             if k < len(g.params) and fn.nodes[a]['k'] != 'defarg':
                 argvals[k] = self.ev(a, state, depth + 1)
+                alias[k] = fn.fmt(a, inline=True)
         outer_custom = self.custom
 
         def custom(f, nid, st):
@@ -62,10 +74,14 @@ class Evaluator:
             if m['k'] == 'ret' and 'e' in m:
                 vals.add(sub.ev(m['e'], None))
             return None
+        saved = getattr(g, 'param_alias', None)
+        g.param_alias = alias          # the callee's parameters print as the caller's argument expressions, so text-based abstractions carry over
         try:
             explore(g, (), tr, lambda f, c, st: sub.ev(c, None), max_states=5000)
         except AnalysisBroken:
             return None
+        finally:
+            g.param_alias = saved
         if len(vals) == 1:
             v = vals.pop()
             return v if isinstance(v, bool) else None
@@ -139,12 +155,13 @@ class Evaluator:
                 if a is None or b is None:
                     return None
                 return {'<': a < b, '<=': a <= b, '>': a > b, '>=': a >= b}[op]
-            return None
+            if op != '()':
+                return None
         if k in ('call', 'construct'):
             cn = fn.cname(n)
             if cn in self.b:
                 return self.b[cn]
-            if k == 'call' and not n.get('op'):
+            if k == 'call' and (not n.get('op') or n.get('op') == '()'):
                 return self._ev_helper(n, state, depth)
             return None
         if k == 'var':
